@@ -502,6 +502,10 @@ class ContinuousPagingSession(object):
             self.released = True
 
     def on_error(self, error):
+        if self.released:
+            # already finished or failed; report a failure only once
+            return
+
         if isinstance(error, ErrorMessage):
             error = error.to_exception()
 
